@@ -433,6 +433,14 @@ func (p *Prog) primsOf(fn *ssa.Function) map[string]bool {
 	fs := p.staticClosure(fn, 5, func(g *ssa.Function) bool { return metaMethods[g.Name()] })
 	for _, f := range fs {
 		allInstrs(f, func(in ssa.Instruction) {
+			// a primitive taken as a function value and called through a local is reached as well
+			for _, op := range in.Operands(nil) {
+				if op != nil && *op != nil {
+					if fv, ok := (*op).(*ssa.Function); ok && primAlphabet[p.qualName(fv)] {
+						out[p.qualName(fv)] = true
+					}
+				}
+			}
 			c, ok := in.(*ssa.Call)
 			if !ok {
 				return
